@@ -233,7 +233,11 @@ Definition enforced (c : config) : limits :=
       to the advertised values; connIDManager.SetConnectionIDLimit stores the advertised
       active_connection_id_limit and Add compares with max(MaxActiveConnectionIDs, limit). *)
 Definition protoMaxStreamCount : Z := 2 ^ 60.        (* protocol.MaxStreamCount *)
-Definition maxDurationMs : Z := 9223372036854775807 / nsPerMs.   (* math.MaxInt64 / time.Millisecond *)
+(* u_connection.go noIdleTimeout = time.Duration(math.MaxInt64 / 4): "no idle timeout" as a Config value *)
+Definition noIdleNs : Z := 9223372036854775807 / 4.
+(* does a max_idle_timeout value (ns) announce an idle timeout at all? (0 / absent and absurdly large
+   values do not) *)
+Definition adv_idle_fin (x : Z) : bool := (0 <? x) && (x <? noIdleNs).
 
 Definition cover_config (a : limits) (c : config) : config :=
   let isw := Z.max (Z.max (Z.max (c_isw c) (l_sd_bl a)) (l_sd_br a)) (l_sd_uni a) in
@@ -242,7 +246,10 @@ Definition cover_config (a : limits) (c : config) : config :=
       (Z.max (c_mis c) (Z.min (l_s_bidi a) protoMaxStreamCount))
       (Z.max (c_mius c) (Z.min (l_s_uni a) protoMaxStreamCount))
       (c_dg c || (0 <? l_dgram a))
-      (if l_idle a / nsPerMs <=? maxDurationMs then Z.max (c_idle c) (l_idle a) else c_idle c).
+      (* max_idle_timeout: raised to the advertised value; "no idle timeout" when none is advertised *)
+      (if 0 <? l_idle a then
+         (if l_idle a / nsPerMs <=? noIdleNs / nsPerMs then Z.max (c_idle c) (l_idle a) else noIdleNs)
+       else noIdleNs).
 
 Definition enforced_spec (a : limits) (c : config) : limits :=
   let e := enforced (cover_config a c) in
@@ -301,6 +308,7 @@ Inductive ev :=
 | EvCID (n : Z)            (* peer: n NEW_CONNECTION_ID frames with fresh sequence numbers *)
 | EvCIDRotate (k : Z)      (* peer: one NEW_CONNECTION_ID with a fresh sequence number whose Retire Prior To retires
                               k >= 1 of the IDs the client stores (the one in use and the k-1 lowest queued ones) *)
+| EvFresh (ty m n : Z)     (* peer: opens m further streams (ty 1 bidi, else uni) and sends n bytes on each of them *)
 | EvDgram (len : Z)        (* peer: one DATAGRAM frame of total length len *)
 | EvGrant (k : kind) (w : Z) (* client: MAX_DATA / MAX_STREAM_DATA / MAX_STREAMS raising limit k to w *)
 | EvRetireCID              (* client: retires one stored connection ID *)
@@ -316,6 +324,32 @@ Definition FrameEncodingError : Z := 7.
 Definition ConnectionIDLimitError : Z := 9.
 Definition ProtocolViolation : Z := 10.
 Definition IdleTimeout : Z := 4096.   (* not a transport error code: qerr.ErrIdleTimeout, the connection is destroyed *)
+
+(** DATAGRAM frames (RFC 9221): the two encodings. max_datagram_frame_size counts the whole frame:
+    type byte, the length field if present (type 0x31), payload. wire.DatagramFrame.Length. *)
+Definition dgram_frame_size (haslen : bool) (payload : Z) : Z :=
+  1 + (if haslen then vlen payload else 0) + payload.
+(* a DATAGRAM frame given by its encoding and payload length is the event "frame of that total size" *)
+Definition EvDgramEnc (haslen : bool) (payload : Z) : ev := EvDgram (dgram_frame_size haslen payload).
+
+(** The sending side (Conn.SendDatagram, always type 0x31): wire.shrinkForLengthField and
+    DatagramFrame.MaxDataLen; the loop of the code runs at most 7 times, fuel 8. *)
+Fixpoint shrink_loop (fuel : nat) (space d : Z) : Z :=
+  match fuel with
+  | O => d
+  | S f => if (0 <? d) && (space <? vlen d - 1 + d) then shrink_loop f space (d - 1) else d
+  end.
+Definition shrink_for_length_field (space : Z) : Z := shrink_loop 8 space space.
+
+Definition dgram_max_data_len (haslen : bool) (maxsize : Z) : Z :=
+  let h := if haslen then 2 else 1 in
+  if maxsize <? h then 0
+  else if haslen then shrink_for_length_field (maxsize - h) else maxsize - h.
+
+(* SendDatagram: min(MaxDataLen(peer's max_datagram_frame_size), current MTU estimate) *)
+Definition send_datagram_max (peer_mdfs mtu : Z) : Z := Z.min (dgram_max_data_len true peer_mdfs) mtu.
+Definition send_datagram_ok (peer_mdfs mtu payload : Z) : bool :=
+  (0 <? peer_mdfs) && (payload <=? send_datagram_max peer_mdfs mtu).
 
 Definition fits_client (s : state) (k : kind) (n : Z) : bool := used (s k) + n <=? rw (s k).
 Definition fits_peer (s : state) (k : kind) (n : Z) : bool := used (s k) + n <=? cr (s k).
@@ -347,6 +381,12 @@ Definition client_step (e : env) (s : state) (x : ev) : state * option Z :=
        of it (RFC 9000 5.1.1: the count is taken after retirement) *)
     if negb (fits_client s KCID (1 - k)) then (s, Some ConnectionIDLimitError)
     else (bump s KCID (1 - k), None)
+  | EvFresh ty m n =>
+    (* fresh streams start with the initial stream window (newFlowController) *)
+    if negb (fits_client s (cnt_kind ty) m) then (s, Some StreamLimitError)
+    else if lim_of (e_enf e) (sd_kind (if ty =? 1 then 1 else 2)) <? n then (s, Some FlowControlError)
+    else if negb (fits_client s KConn (m * n)) then (s, Some FlowControlError)
+    else (bump (bump s (cnt_kind ty) m) KConn (m * n), None)
   | EvDgram len =>
     if l_dgram (e_enf e) =? 0 then (s, Some FrameEncodingError)                    (* FrameParser.ParseType: unknown frame type *)
     else if len >? l_dgram (e_enf e) then (s, Some ProtocolViolation)              (* handleDatagramFrame *)
@@ -381,11 +421,14 @@ Definition peer_ok (e : env) (s : state) (x : ev) : bool :=
   | EvOpen ty n => (1 <=? n) && fits_peer s (cnt_kind ty) n
   | EvCID n => (0 <=? n) && fits_peer s KCID n
   | EvCIDRotate k => (1 <=? k) && (k <=? used (s KCID)) && fits_peer s KCID (1 - k)
+  | EvFresh ty m n =>
+    (1 <=? m) && (0 <=? n) && fits_peer s (cnt_kind ty) m &&
+    (n <=? lim_of (e_adv e) (sd_kind (if ty =? 1 then 1 else 2))) && fits_peer s KConn (m * n)
   | EvDgram len => (1 <=? len) && (len <=? dgram_cap (e_adv e))
   | EvGrant _ _ => true
   | EvRetireCID => true
   | EvSilence d peer_idle pto3 =>
-    (0 <=? d) && (0 <=? peer_idle) && (0 <=? pto3) &&
+    (0 <=? d) && (d <? noIdleNs) && (0 <=? peer_idle) && (0 <=? pto3) &&   (* no history lasts 73 years *)
     match peer_idle_view (l_idle (e_adv e)) peer_idle with None => true | Some t => d <? t end
   end.
 
@@ -466,10 +509,10 @@ Definition covers (adv enf : limits) : Prop :=
   l_s_uni adv <= l_s_uni enf /\
   l_cid adv <= l_cid enf /\
   dgram_cap adv <= l_dgram enf /\
-  (0 < l_idle adv /\ l_idle adv <= l_idle enf).
+  (if adv_idle_fin (l_idle adv) then l_idle adv <= l_idle enf else noIdleNs <= l_idle enf).
 
 Definition coversb (adv enf : limits) : list bool :=
   [l_max_data adv <=? l_max_data enf; l_sd_bl adv <=? l_sd_bl enf; l_sd_br adv <=? l_sd_br enf;
    l_sd_uni adv <=? l_sd_uni enf; l_s_bidi adv <=? l_s_bidi enf; l_s_uni adv <=? l_s_uni enf;
    l_cid adv <=? l_cid enf; dgram_cap adv <=? l_dgram enf;
-   (0 <? l_idle adv) && (l_idle adv <=? l_idle enf)].
+   if adv_idle_fin (l_idle adv) then l_idle adv <=? l_idle enf else noIdleNs <=? l_idle enf].
